@@ -231,6 +231,18 @@ func (m c17) run(c *Ctx, specs []*TypeSpec, calls []c17call) {
 		if !check(i+1, fmt.Sprintf("after Set #%d", i+1)) {
 			return
 		}
+		if call.IsMany && len(ress) == 2 {
+			// the list is a set as far as its content goes, but what Get hands back is a Go slice: two
+			// implementations given the same call must hand back the same one ("indistinguishable")
+			var a, b []string
+			if pi := Guard(func() { a, _ = ress[0].Get(call.Field).([]string); b, _ = ress[1].Get(call.Field).([]string) }); pi == nil {
+				c.Count("to_many_order_comparisons")
+				if strings.Join(a, "\x00") != strings.Join(b, "\x00") {
+					c.Violate("impl-disagree/to-many-order", "after Set(%q, %q) the %s resource returns %q and the %s one %q; %s", call.Field, call.Many, implName(specs[0]), a, implName(specs[1]), b, hist(i+1))
+					return
+				}
+			}
+		}
 	}
 	// New() of a used resource is zero-valued with the same structure
 	zero := &ResSpec{Type: base.Name}
@@ -411,6 +423,17 @@ func (m c17) equalityLaws(c *Ctx, specs []*TypeSpec, state *ResSpec) {
 				r4.ToMany[old] = append(append([]string{}, state.ToMany[old]...), "extra-id")
 			}
 			pairs = append(pairs, pair{class: "value", t1: *t, r1: clone(state), t2: *t, r2: r4})
+		}
+		{
+			// one more relationship / one more attribute on one side only (the other side's names are a strict subset)
+			t7, t8 := *t, *t
+			t7.Rels = append(append([]RelSpec{}, t.Rels...), RelSpec{Name: "zz-extra-rel", ToType: "x"})
+			t8.Attrs = append(append([]AttrSpec{}, t.Attrs...), AttrSpec{Name: "zz-extra-attr", Kind: KString})
+			pairs = append(pairs, pair{class: "field-count/rel", t1: *t, r1: clone(state), t2: t7, r2: clone(state)})
+			pairs = append(pairs, pair{class: "field-count/attr", t1: *t, r1: clone(state), t2: t8, r2: clone(state)})
+			t9 := *t
+			t9.Rels = append(append([]RelSpec{}, t.Rels...), RelSpec{Name: "zz-extra-one", ToOne: true, ToType: "x"})
+			pairs = append(pairs, pair{class: "field-count/rel", t1: t9, r1: clone(state), t2: *t, r2: clone(state)})
 		}
 		for _, p := range pairs {
 			p := p
